@@ -26,7 +26,10 @@ func (g *verifGetter) Get(ref Reference, canObjStm bool) (Native, error) {
 // cyclic, shared, chained or dangling).
 func verifSrcRef(k int) Reference {
 	n := verifrt.IntRange("target", 1, k+1)
-	return NewReference(uint32(n), 0)
+	// generation 1 does not exist in the source: a stale reference to a
+	// number that is in use under generation 0
+	g := verifrt.Choice("targetgen", 2)
+	return NewReference(uint32(n), uint16(g))
 }
 
 func verifLeaf(k int) Object {
